@@ -94,6 +94,20 @@ type (
 	n1  struct{ X n2 }
 )
 
+// named basic types and a struct of them: decoded by Kind
+type (
+	nmK   uint8
+	nmS   string
+	nmF   float64
+	nmI   int32
+	nmRec struct {
+		K nmK
+		S nmS
+		F nmF
+		I nmI
+	}
+)
+
 // element types that occupy no bytes on the wire: a count taken from the input then costs no input at all
 type z0 struct{}
 type z1 struct{ hidden int }
@@ -114,7 +128,8 @@ func entries() []entry {
 	es = append(es, entry{"ReadVersionVector", func(d []byte) { cluster.ReadVersionVector(messages.NewReader(d)) }})
 	es = append(es, reflectEntry[n1]("n1"), reflectEntry[n2]("n2"), reflectEntry[n3]("n3"), reflectEntry[n4]("n4"), reflectEntry[n5]("n5"),
 		reflectEntry[n6]("n6"), reflectEntry[n7]("n7"), reflectEntry[n8]("n8"), reflectEntry[n9]("n9"), reflectEntry[n10]("n10"),
-		reflectEntry[string]("string"), reflectEntry[[]byte]("[]byte"), reflectEntry[*n9]("*n9"), reflectEntry[[4]n8]("[4]n8"), reflectEntry[z0]("z0"), reflectEntry[z1]("z1"), reflectEntry[[]z0]("[]z0"))
+		reflectEntry[string]("string"), reflectEntry[[]byte]("[]byte"), reflectEntry[*n9]("*n9"), reflectEntry[[4]n8]("[4]n8"), reflectEntry[z0]("z0"), reflectEntry[z1]("z1"), reflectEntry[[]z0]("[]z0"),
+		reflectEntry[nmK]("nmK"), reflectEntry[nmS]("nmS"), reflectEntry[nmRec]("nmRec"), reflectEntry[[]nmI]("[]nmI"))
 	names, _ := messages.VerifRegistry()
 	for _, n := range names {
 		n := n
@@ -303,6 +318,9 @@ func untouched() *venum.Check {
 			{true, false}, {float64(2.5), float64(-1)},
 			{flat{7, -2, [2]uint8{1, 2}, flatIn{5, true}}, flat{9, 9, [2]uint8{3, 3}, flatIn{1, false}}}, {[4]uint32{11, 12, 13, 14}, [4]uint32{1, 2, 3, 4}},
 			{[2]flatIn{{1, true}, {2, true}}, [2]flatIn{{8, false}, {9, true}}},
+			// named basic types (read by Kind since fix 4e31d97): bare, in a struct, in a slice
+			{nmK(7), nmK(9)}, {nmS("hello"), nmS("previous")}, {nmRec{3, "b", -2.5, 70000}, nmRec{9, "prev", 1, 1}}, {[]nmK{1, 2, 3}, []nmK{7, 8}},
+			{[]nmRec{{1, "a", 1, 1}, {2, "bb", 2, 2}}, []nmRec{{9, "p", 9, 9}}},
 		}
 		// every case twice: the target holds a previously decoded non-zero value / the target is the zero value of its type
 		// (a fresh variable, or one whose last decoded value happened to be all zeroes)
